@@ -116,6 +116,74 @@ def observe (cfg : Cfg) (s : State) (maxConc : Nat) : Obs :=
     leaked := goroutinesLeft cfg s }
 
 
+/-! ### direct use of the public API (result store, `Queue`): the property on a history of calls
+
+The statement of C14 at the level of the worker group's own API: every result a job function produced is
+handed out by `Results` of its group exactly once, oldest first — unless the client itself wiped the group
+with `RemoveGroup` in between —, a stored result leaves a token on the group's notify channel (the reader
+is woken), refused items leave nothing, no more job functions run than workers; `Queue` is FIFO and `Pop`
+on the empty queue is an error.  The monitor below keeps NO map entries (a group without entry and a group
+with an empty entry are the same to it): it is the view of `resultData` / `resultNotify` that the
+transition system of `Model/C14.lean` uses (`results.filter (isGrp g)`, `notify`). -/
+
+structure DMon where
+  owed : Nat → List Nat := fun _ => []        -- stored, neither handed out nor wiped; oldest first
+  sig : Nat → Bool := fun _ => false          -- a token is pending on the group's channel
+  outstanding : Nat := 0
+  fifo : List Nat := []                       -- what the `Queue` value must hold
+  -- history (ghost): never read by a check
+  finished : Nat → List Nat := fun _ => []
+  delivered : Nat → List Nat := fun _ => []
+  wiped : Nat → List Nat := fun _ => []
+
+/-- one call and its observed outcome; `none`: the outcome violates the property (second component of the
+error: which conjunct) -/
+def dmonStep (workers : Nat) (m : DMon) : DOp → DOut → Except String DMon
+  | .submit _ _, .accepted r =>
+    if r ≤ workers then .ok { m with outstanding := m.outstanding + 1 }
+    else .error "more job functions ran at once than workers configured"
+  | .submitCancelled _, .refused => .ok m
+  | .finish g v, .finished r =>
+    if r ≤ workers then
+      .ok { m with owed := setAt m.owed g (m.owed g ++ [v]), sig := setAt m.sig g true,
+                   outstanding := m.outstanding - 1, finished := setAt m.finished g (m.finished g ++ [v]) }
+    else .error "more job functions ran at once than workers configured"
+  | .remove g, .unit =>
+    .ok { m with owed := setAt m.owed g [], sig := setAt m.sig g false, wiped := setAt m.wiped g (m.wiped g ++ m.owed g) }
+  | .results g, .vals l =>
+    if l = m.owed g then
+      .ok { m with owed := setAt m.owed g [], delivered := setAt m.delivered g (m.delivered g ++ l) }
+    else .error "Results did not hand out exactly the stored results of the group, each once, oldest first"
+  | .poll g, .token b =>
+    if b = m.sig g then .ok { m with sig := setAt m.sig g false }
+    else .error "the group's notify channel did not hold exactly the token of the results stored (lost or spurious wake-up)"
+  | .qAdd vs, .unit => .ok { m with fifo := m.fifo ++ vs }
+  | .qPop, .popped o =>
+    if o = m.fifo.head? then .ok { m with fifo := m.fifo.tail }
+    else .error "Queue.Pop did not return the oldest value (or an error exactly on the empty queue)"
+  | .qLen, .len n =>
+    if n = m.fifo.length then .ok m else .error "Queue.Len is not the number of values added and not popped"
+  | _, _ => .error "a call had an outcome of the wrong kind (accepted / refused / error)"
+
+def dmonRun (workers : Nat) : DMon → List DOp → List DOut → Except String DMon
+  | m, [], [] => .ok m
+  | m, op :: ops, out :: outs =>
+    match dmonStep workers m op out with
+    | .ok m' => dmonRun workers m' ops outs
+    | .error e => .error e
+  | _, _, _ => .error "number of outcomes differs from the number of calls"
+
+/-- C14 on a history of direct calls -/
+def directSpec (workers : Nat) (ops : List DOp) (outs : List DOut) : Bool :=
+  match dmonRun workers {} ops outs with
+  | .ok _ => true
+  | .error _ => false
+
+def directExplain (workers : Nat) (ops : List DOp) (outs : List DOut) : String :=
+  match dmonRun workers {} ops outs with
+  | .ok _ => "ok"
+  | .error e => e
+
 /-! ### trace validation (exact refinement check against instrumented code)
 
 With the `verif` hooks of `pkg/util/worker.go` every atomic step of the model has an instrumentation
